@@ -45,6 +45,13 @@ def _raw_sites(facts):
     return out
 
 
+def _from_src(t, src):
+    """term contains the source: the result of the call terminating block `src` (int) or parameter ('param', k)"""
+    if isinstance(src, tuple):
+        return any(x[0] == "param" and x[1] == src[1] for x in walk(t))
+    return derives_from_block(t, src)
+
+
 def _digest_match_lits(body, block, src_block, facts):
     """literals dominating `block` of the form digest(X) ==/!= Y on the matching edge, X derived from the
     source call, Y not"""
@@ -62,7 +69,7 @@ def _digest_match_lits(body, block, src_block, facts):
             continue
         for x, y in ((a, b_), (b_, a)):
             dig = [c for c in walk(x) if call_named(c, "digest_bytes", "digest_string")]
-            if any(derives_from_block(c, src_block) for c in dig) and not derives_from_block(y, src_block):
+            if any(_from_src(c, src_block) for c in dig) and not _from_src(y, src_block):
                 out.append(l)
                 break
     return out
@@ -73,8 +80,10 @@ def _via_views(t, src_block, depth=0):
     if depth > 80:
         return False
     k = t[0]
+    if k == "param" and isinstance(src_block, tuple):
+        return t[1] == src_block[1]
     if k == "call":
-        if t[3] == src_block:
+        if not isinstance(src_block, tuple) and t[3] == src_block:
             return True
         if callee_name(t) in VIEWS and t[2]:
             return _via_views(t[2][0], src_block, depth + 1)
@@ -116,9 +125,10 @@ def _uses(body, src_block):
         if _via_views(rt, src_block):
             out.append(("return", bi, st))
     # the call's own destination being the return place
-    t = body.blocks[src_block].term
-    if t.dest is not None and t.dest.local == 0:
-        out.append(("return", src_block, None))
+    if not isinstance(src_block, tuple):
+        t = body.blocks[src_block].term
+        if t.dest is not None and t.dest.local == 0:
+            out.append(("return", src_block, None))
     return out
 
 
@@ -147,10 +157,23 @@ def run(facts, res):
         uses = _uses(body, sb)
         cfg = cfg_of(body)
         if not uses:
-            res.instance("H1", "%s: raw read result is not used" % body.path, body.loc(body.blocks[sb].term.line), nontrivial=False)
+            res.instance("H1", "%s: raw read result is not used" % body.path, body.loc(body.blocks[sb].term.line if not isinstance(sb, tuple) else None), nontrivial=False)
         unverified_return = False
         for kind, ub, what in uses:
             dm = _digest_match_lits(body, ub, sb, facts)
+            if not dm and kind == "call" and what.callee is not None:
+                # the bytes are handed to one of the crate's own private functions (`decode(&bytes, expected_digest)`): the
+                # obligation moves into that function, with the receiving parameter as the source
+                hb_ = facts.body(what.callee.target())
+                if hb_ is not None and hb_.in_repo() and not hb_.public and hb_.kind != "closure" and hb_.impl_trait is None and \
+                        what.callee.name != R.name("raw_write"):
+                    du_ = du_of(body)
+                    ks = [i + 1 for i, a in enumerate(what.args) if _via_views(du_.operand_term(a, 24), sb)]
+                    if ks:
+                        for k_ in ks:
+                            work.append((hb_, ("param", k_), "handed over by " + body.path))
+                        res.instance("H1", "%s hands the raw bytes to %s: the digest check is looked for there" % (body.path, hb_.path), body.loc(what.line))
+                        continue
             where = body.loc(body.blocks[ub].term.line if what is None or kind == "call" else what.line)
             if dm:
                 # mismatch edges must not reach an Ok return
